@@ -357,7 +357,9 @@ func HMock(props ...string) *Harness {
 				})
 				ok, detail := env.checkWitness(kf)
 				if len(st.Unwinding) > 0 && ok {
-					ic.known(kf.What)
+					if kf.concerns(env.Prop) {
+						ic.known(kf.What)
+					}
 				} else {
 					ic.note(fmt.Sprintf("known finding %q no longer reproduces (symbolic witness: %d unwinding failures; recorded CLI witness reproduced: %v %s) — close the entry", kf.Class, len(st.Unwinding), ok, detail))
 				}
